@@ -42,7 +42,7 @@ DIST_CELLS = [
     ("analytic-nonuniform", "G2n", {}, False, "analytic"),
     ("analytic-uniform", "G4u", {}, False, "analytic"),
 ]
-QUICK_DIST = ["tg-constant-volume", "tg-constant-volume-brief-training", "tg-nonuniform-prior", "tg-worst-point-radius", "nball", "accumulate-weights", "truncate-log-q",
+QUICK_DIST = ["tg-constant-volume", "tg-constant-volume-brief-training", "tg-nonuniform-prior", "tg-worst-point-radius", "nball", "nball-worst-point", "accumulate-weights", "truncate-log-q",
               "logit-reparam", "drawsize-200", "accumulate-weights-many-batches", "latent-gaussian", "augmented-marginalised", "augmented-2-dims", "rejection-nonuniform", "rejection-nonuniform-box-draws", "rejection-narrow-prior-box-draws", "analytic-nonuniform"]
 
 
